@@ -117,3 +117,30 @@ func init() {
 		return "UNKNOWN_ENUM"
 	}
 }
+
+func init() {
+	E := externals
+	isContract := func(fr *frame, args []value) value {
+		var st structure
+		switch a := args[0].(type) {
+		case *value:
+			if a == nil {
+				panic(rtErr(fr.i, "invalid memory address or nil pointer dereference"))
+			}
+			st = (*a).(structure)
+		case structure:
+			st = a
+		}
+		ch, _ := st[1].([]value)
+		if len(ch) == 0 {
+			return false
+		}
+		cb, ok := concBytes(ch)
+		if !ok {
+			panic(engineError{"symbolic code hash"})
+		}
+		return string(cb) != string(keccak256(nil))
+	}
+	E["(*github.com/evmos/ethermint/x/evm/statedb.Account).IsContract"] = isContract
+	E["(github.com/evmos/ethermint/x/evm/statedb.Account).IsContract"] = isContract
+}
